@@ -472,6 +472,7 @@ func (wf *Workflow[I, O]) compile(ctx context.Context, options *graphCompileOpti
 			} else {
 				wf.g.handlerPreNode[n.key] = append([]handlerPair{pair}, wf.g.handlerPreNode[n.key]...)
 			}
+			n.staticValues = make(map[string]any) // installed once, like addInputs
 		}
 	}
 
